@@ -274,6 +274,13 @@ func Guard(fn func()) (pv any, stack string) {
 	return nil, ""
 }
 
+// Violations returns the violations recorded so far.
+func (c *Ctx) Violations() []Violation {
+	c.mu.Lock()
+	defer c.mu.Unlock()
+	return append([]Violation(nil), c.res.Violations...)
+}
+
 // Count adds to a named event counter.
 func (c *Ctx) Count(name string, n int64) {
 	c.mu.Lock()
